@@ -1,9 +1,9 @@
 package node
 
 import (
-	"math"
 	"context"
 	"fmt"
+	"math"
 	"math/rand"
 	"os"
 	"path/filepath"
@@ -56,19 +56,19 @@ type c07 struct {
 	hist   bool // every third row also carries a histogram
 
 	// incarnation state
-	inc     int
-	dead    bool
-	node    *Node
-	walMgr  replica.WriteAheadLogManager
-	part    replica.Partition
-	cancel  context.CancelFunc
-	armed   bool
-	garbage map[int64]bool // log sequences of undecodable entries
-	part2   replica.Partition // the log of another leader of the same family, replicated to this node (nil = none)
-	shutting bool          // a clean shutdown is in progress (overlap mode)
-	ioArmed  bool          // I/O errors may be injected (inside flush operations)
-	crashFS float64
-	crashY  float64
+	inc      int
+	dead     bool
+	node     *Node
+	walMgr   replica.WriteAheadLogManager
+	part     replica.Partition
+	cancel   context.CancelFunc
+	armed    bool
+	garbage  map[int64]bool    // log sequences of undecodable entries
+	part2    replica.Partition // the log of another leader of the same family, replicated to this node (nil = none)
+	shutting bool              // a clean shutdown is in progress (overlap mode)
+	ioArmed  bool              // I/O errors may be injected (inside flush operations)
+	crashFS  float64
+	crashY   float64
 }
 
 const c07Leader = models.NodeID(1)
@@ -83,8 +83,8 @@ func genC07(rng *rand.Rand, tier string) *core.Plan {
 	p.Cfg["nseries"] = 2 + rng.Intn(4)
 	p.Cfg["crash_fs_pm"] = []int{0, 5, 20, 60}[rng.Intn(4)]  // per file-system operation, while armed
 	p.Cfg["crash_y_pm10"] = []int{0, 2, 10, 40}[rng.Intn(4)] // per 10000 function entries, while armed
-	overlap := rng.Intn(3) == 0                                // clean shutdowns do not wait for a running flush job
-	other := rng.Intn(2) == 0                                  // the node also holds the log of another leader of the family
+	overlap := rng.Intn(3) == 0                              // clean shutdowns do not wait for a running flush job
+	other := rng.Intn(2) == 0                                // the node also holds the log of another leader of the family
 	if rng.Intn(4) == 0 {
 		p.Cfg["ioerr_pm"] = []int{100, 300, 1000}[rng.Intn(3)] // table writes of the metadata store may fail inside flush jobs
 		p.Cfg["ioerr_max"] = 1 + rng.Intn(2)
@@ -143,6 +143,7 @@ func genC07(rng *rand.Rand, tier string) *core.Plan {
 	}
 	p.Ops = append(p.Ops, core.Op{K: "flushwait"}, core.Op{K: "gc"}, core.Op{K: "append", A: 1, B: 1}, core.Op{K: "check"})
 	p.Cfg["maporder"] = rng.Intn(2) // tape-chosen iteration order of Go maps in the code under test
+	core.GenZone(p, rng.Intn)       // the node's local time zone
 	p.Cfg["hist"] = rng.Intn(2)     // every third row also carries a histogram
 	return p
 }
@@ -341,7 +342,7 @@ func (h *c07) check(when string) {
 	if h.hist {
 		cols = "fsum,HistogramCount"
 	}
-	rs, err := h.node.Query(h.db, "select "+cols+" from m where time>='2000-01-01 00:00:00' and time<='2000-01-01 00:59:59' group by id,time(10s)", Layout{Leaves: all})
+	rs, err := h.node.Query(h.db, "select "+cols+" from m where time>='"+fmtTime(Jan1)+"' and time<='"+fmtTime(Jan1+3599000)+"' group by id,time(10s)", Layout{Leaves: all})
 	c.Oracle()
 	got := map[int]float64{}
 	if err != nil {
@@ -394,7 +395,7 @@ func (h *c07) check(when string) {
 					c.Sim.Event("  series %v: %v", s.Tags, s.Fields["fsum"])
 				}
 			}
-			rs2, err2 := h.node.Query(h.db, "select fsum from m where time>='2000-01-01 00:00:00' and time<='2000-01-01 00:59:59' group by id", Layout{Leaves: all})
+			rs2, err2 := h.node.Query(h.db, "select fsum from m where time>='"+fmtTime(Jan1)+"' and time<='"+fmtTime(Jan1+3599000)+"' group by id", Layout{Leaves: all})
 			if rs2 != nil {
 				for _, s := range rs2.Series {
 					c.Sim.Event("  (no time grouping) series %v: %v", s.Tags, s.Fields["fsum"])
